@@ -379,45 +379,54 @@ example : chainOk [.batch 0 2147483645 5, .batch 1 0 3] = false := by decide
 example : chainOk [.batch 0 2147483645 5, .reset, .batch 1 0 3, .batch 1 3 1] = true := by decide
 
 /-- The arrival monitor never refuses what the write-order monitor accepts, and then nothing is left aside: on such
-histories the two coincide. -/
-theorem lmon_step_generalises (m m' : Mon) (ev : Ev) (h : m.step ev = some m') :
-    (LMon.ofMon m).step ev = some (LMon.ofMon m') := by
+histories the two coincide (step from a started state; the first batch; whole histories). -/
+theorem lmon_step_generalises (m m' : Mon) (ev : Ev) (hst : m.started = true) (h : m.step ev = some m') :
+    (LMon.ofMon m).step ev = some (LMon.ofMon m') ∧ m'.started = true := by
   cases ev with
-  | reset => simp [Mon.step] at h; subst h; simp [LMon.step, LMon.ofMon]
+  | reset => simp [Mon.step] at h; subst h; simp [LMon.step, LMon.ofMon, hst]
   | batch e f n =>
-    simp only [Mon.step] at h
-    simp only [LMon.step, LMon.ofMon]
+    simp only [Mon.step, hst, Bool.not_true, Bool.false_eq_true, if_false] at h
+    simp only [LMon.step, LMon.ofMon, hst, Bool.not_true, Bool.false_eq_true, if_false]
     split at h
     · simp at h
     · rename_i hr
       simp only [hr, if_false, Bool.false_eq_true]
       split at h
-      · simp only [Option.some.injEq] at h; subst h; simp_all
-      · rename_i hst
-        simp only [hst, if_false, Bool.false_eq_true]
+      · rename_i he
+        simp only [he, if_true, LMon.sameEpoch]
         split at h
-        · rename_i he
-          simp only [he, if_true]
+        · rename_i hf
+          simp only [Option.some.injEq] at h; subst h
+          simp [hf, LMon.absorb, hst]
+        · rename_i hf
           split at h
-          · rename_i hf
+          · rename_i hc
             simp only [Option.some.injEq] at h; subst h
-            simp [hf, LMon.absorb]
-          · rename_i hf
-            split at h
-            · rename_i hc
-              simp only [Option.some.injEq] at h; subst h
-              have hc' : (f, n) ∈ m.chain := by simpa using hc
-              simp [hf, hc']
-            · simp at h
-        · rename_i he
-          simp only [he, if_false, Bool.false_eq_true]
-          split at h
-          · rename_i ha
-            simp only [Option.some.injEq] at h; subst h
-            simp_all
+            have hc' : (f, n) ∈ m.chain := by simpa using hc
+            simp [hf, hc', hst]
           · simp at h
+      · rename_i he
+        simp only [he, if_false, Bool.false_eq_true]
+        split at h
+        · rename_i ha
+          simp only [Option.some.injEq] at h; subst h
+          simp only [Bool.and_eq_true, beq_iff_eq] at ha
+          simp [ha.1, ha.2, LMon.sameEpoch, LMon.absorb]
+        · simp at h
 
-theorem lmon_generalises (es : List Ev) (m m' : Mon) (h : m.run es = some m') :
+theorem lmon_first_generalises (e f n : Int) (m' : Mon) (h : ({} : Mon).step (.batch e f n) = some m') :
+    (LMon.init f).step (.batch e f n) = some (LMon.ofMon m') ∧ m'.started = true := by
+  simp only [Mon.step] at h
+  simp only [LMon.step, LMon.init]
+  split at h
+  · simp at h
+  · rename_i hr
+    simp only [hr, if_false, Bool.false_eq_true]
+    simp only [Bool.not_false, if_true, Option.some.injEq] at h
+    subst h
+    simp [LMon.sameEpoch, LMon.absorb, LMon.ofMon]
+
+theorem lmon_generalises_from (es : List Ev) (m m' : Mon) (hst : m.started = true) (h : m.run es = some m') :
     (LMon.ofMon m).run es = some (LMon.ofMon m') ∧ (LMon.ofMon m').done = true := by
   induction es generalizing m with
   | nil => simp [Mon.run] at h; subst h; simp [LMon.run, LMon.done, LMon.ofMon]
@@ -427,16 +436,32 @@ theorem lmon_generalises (es : List Ev) (m m' : Mon) (h : m.run es = some m') :
     | none => simp [hs] at h
     | some m1 =>
       simp only [hs] at h
-      simp only [LMon.run, lmon_step_generalises m m1 e hs]
-      exact ih m1 h
+      obtain ⟨h1, h2⟩ := lmon_step_generalises m m1 e hst hs
+      simp only [LMon.run, h1]
+      exact ih m1 h2 h
+
+/-- Whole histories: a history the write-order monitor accepts, read as an arrival order by the arrival monitor started at
+the first batch's sequence, is accepted with nothing left aside. -/
+theorem lmon_generalises (e f n : Int) (es : List Ev) (m' : Mon) (h : Mon.run {} (.batch e f n :: es) = some m') :
+    (LMon.init f).run (.batch e f n :: es) = some (LMon.ofMon m') ∧ (LMon.ofMon m').done = true := by
+  simp only [Mon.run] at h
+  cases hs : ({} : Mon).step (.batch e f n) with
+  | none => simp [hs] at h
+  | some m1 =>
+    simp only [hs] at h
+    obtain ⟨h1, h2⟩ := lmon_first_generalises e f n m1 hs
+    simp only [LMon.run, h1]
+    exact lmon_generalises_from es m1 m' h2 h
 
 /-- the recorded arrival order of sweep seed 23 (`scen 2147483613 …`): 45+5 arrives, 68+5 arrives before 50+18 ever
 did, then the re-sends; the numbering is one chain and nothing is left aside. Two batches with one first sequence, or
 a batch that the chain never reaches, are still refused. -/
-example : ((LMon.run {} [.batch 0 31 14, .batch 0 45 5, .batch 0 68 5, .batch 0 45 5, .batch 0 50 18, .batch 0 68 5, .batch 0 73 15]).map
+example : (((LMon.init 31).run [.batch 0 31 14, .batch 0 45 5, .batch 0 68 5, .batch 0 45 5, .batch 0 50 18, .batch 0 68 5, .batch 0 73 15]).map
     (fun m => (m.done, m.nextSeq))) = some (true, 88) := by decide
-example : (LMon.run {} [.batch 0 31 14, .batch 0 45 5, .batch 0 68 5, .batch 0 68 4]).isSome = false := by decide
-example : ((LMon.run {} [.batch 0 31 14, .batch 0 45 5, .batch 0 68 5, .batch 0 50 17]).map (·.done)) = some false := by decide
+example : ((LMon.init 31).run [.batch 0 31 14, .batch 0 45 5, .batch 0 68 5, .batch 0 68 4]).isSome = false := by decide
+example : (((LMon.init 31).run [.batch 0 31 14, .batch 0 45 5, .batch 0 68 5, .batch 0 50 17]).map (·.done)) = some false := by decide
+/-- the first batch written (31+14) never arrives at first, nor does the first batch of the new epoch (0+3) -/
+example : (((LMon.init 31).run [.batch 0 45 5, .batch 0 31 14, .reset, .batch 1 3 2, .batch 1 0 3]).map (fun m => (m.done, m.nextSeq))) = some (true, 5) := by decide
 
 end Client
 
